@@ -324,6 +324,9 @@ executeProcess:
 			if err == nil {
 				p.State.Set(state.Executing)
 				p.ExitNum, err = fork.Execute(fn.Block)
+			} else {
+				// the fork will never be executed: release its function ID
+				GlobalFIDs.Deregister(fork.Id)
 			}
 		}
 
